@@ -197,7 +197,43 @@ type profile struct {
 
 var allMsgKinds = []string{"PauseProtocol", "UnpauseProtocol", "PauseCrossChains", "UnpauseCrossChains", "PauseAction", "UnpauseAction", "UpdateParams", "ReplaceDepositForBurn"}
 
+var cleanRoutes = []string{"cctp", "hyp", "internal"}
+
 var profiles = map[string]profile{
+	// C01: receiver encodings, every route and recipient (the orbiter account itself included), prior deposits
+	"C01": {name: "C01", minOps: 2, maxOps: 6, wRecv: 70, wMsg: 8, wDeposit: 17, wQuery: 5, pOrbiter: 88, pFee: 50, pBadPayload: 30,
+		pFault: 0, pLie: 0, pWrongSign: 5, pPass: 10, pHuge: 8, pBadDenom: 8, routes: cleanRoutes, msgKinds: allMsgKinds, mask: []int{0, 2}},
+	// C02: amounts up to 2^256-1, fee lists, all routes, prior ledger states
+	"C02": {name: "C02", minOps: 1, maxOps: 5, wRecv: 80, wMsg: 2, wDeposit: 18, wQuery: 0, pOrbiter: 95, pFee: 70, pBadPayload: 8,
+		pFault: 0, pLie: 0, pWrongSign: 0, pPass: 0, pHuge: 25, pBadDenom: 4, routes: cleanRoutes, msgKinds: []string{"UpdateParams"}, mask: []int{0, 2, 3}},
+	// C03: every single fault position, lies of the balance query, natural failures
+	"C03": {name: "C03", minOps: 1, maxOps: 4, wRecv: 90, wMsg: 0, wDeposit: 10, wQuery: 0, pOrbiter: 97, pFee: 65, pBadPayload: 22,
+		pFault: 55, pLie: 8, pWrongSign: 0, pPass: 0, pHuge: 6, pBadDenom: 3, routes: cleanRoutes, msgKinds: []string{"UpdateParams"}, mask: []int{0, 1, 2, 4}},
+	// C05: the recorded requests
+	"C05": {name: "C05", minOps: 1, maxOps: 4, wRecv: 85, wMsg: 15, wDeposit: 0, wQuery: 0, pOrbiter: 97, pFee: 50, pBadPayload: 30,
+		pFault: 0, pLie: 0, pWrongSign: 15, pPass: 30, pHuge: 5, pBadDenom: 2, routes: cleanRoutes, msgKinds: []string{"ReplaceDepositForBurn", "UpdateParams", "UpdateParams"}, mask: []int{0, 1}},
+	// C08: pause / unpause histories interleaved with probes to every destination
+	"C08": {name: "C08", minOps: 4, maxOps: 14, wRecv: 40, wMsg: 40, wDeposit: 0, wQuery: 20, pOrbiter: 96, pFee: 20, pBadPayload: 3,
+		pFault: 0, pLie: 0, pWrongSign: 10, pPass: 0, pHuge: 0, pBadDenom: 0, routes: cleanRoutes,
+		msgKinds: []string{"PauseProtocol", "UnpauseProtocol", "PauseCrossChains", "UnpauseCrossChains", "PauseCrossChains", "UnpauseCrossChains"}, mask: []int{0, 1, 4}},
+	"C09": {name: "C09", minOps: 3, maxOps: 10, wRecv: 45, wMsg: 35, wDeposit: 0, wQuery: 20, pOrbiter: 96, pFee: 60, pBadPayload: 3,
+		pFault: 0, pLie: 0, pWrongSign: 10, pPass: 0, pHuge: 0, pBadDenom: 0, routes: cleanRoutes,
+		msgKinds: []string{"PauseAction", "UnpauseAction", "PauseAction", "UnpauseAction", "PauseProtocol"}, mask: []int{0, 1, 2, 4}},
+	// C10: every message kind, every kind of signer
+	"C10": {name: "C10", minOps: 3, maxOps: 10, wRecv: 10, wMsg: 80, wDeposit: 0, wQuery: 10, pOrbiter: 90, pFee: 30, pBadPayload: 0,
+		pFault: 0, pLie: 0, pWrongSign: 55, pPass: 0, pHuge: 0, pBadDenom: 0, routes: cleanRoutes, msgKinds: allMsgKinds, mask: []int{0, 1, 4}},
+	// C11: deposits onto the orbiter account crossed with transfers; each packet also runs on a twin branch with an emptied account
+	"C11": {name: "C11", minOps: 2, maxOps: 7, wRecv: 55, wMsg: 5, wDeposit: 40, wQuery: 0, pOrbiter: 95, pFee: 50, pBadPayload: 10,
+		pFault: 0, pLie: 0, pWrongSign: 0, pPass: 25, pHuge: 5, pBadDenom: 3, routes: cleanRoutes, msgKinds: []string{"UpdateParams"}, mask: []int{0, 1, 2, 4}},
+	// C12: long mixed histories
+	"C12": {name: "C12", minOps: 6, maxOps: 24, wRecv: 80, wMsg: 10, wDeposit: 5, wQuery: 5, pOrbiter: 90, pFee: 50, pBadPayload: 12,
+		pFault: 5, pLie: 0, pWrongSign: 10, pPass: 5, pHuge: 4, pBadDenom: 5, routes: cleanRoutes, msgKinds: allMsgKinds, mask: []int{0, 4}},
+	// C18: passthrough lengths around the limit in force, histories of parameter updates
+	"C18": {name: "C18", minOps: 3, maxOps: 10, wRecv: 55, wMsg: 35, wDeposit: 0, wQuery: 10, pOrbiter: 97, pFee: 20, pBadPayload: 2,
+		pFault: 0, pLie: 0, pWrongSign: 20, pPass: 85, pHuge: 0, pBadDenom: 0, routes: cleanRoutes, msgKinds: []string{"UpdateParams"}, mask: []int{0, 1, 4}},
+	// C14: the malformed stream through the whole stack
+	"C14": {name: "C14", minOps: 1, maxOps: 4, wRecv: 90, wMsg: 5, wDeposit: 5, wQuery: 0, pOrbiter: 85, pFee: 60, pBadPayload: 70,
+		pFault: 0, pLie: 0, pWrongSign: 30, pPass: 20, pHuge: 20, pBadDenom: 25, routes: cleanRoutes, msgKinds: allMsgKinds, mask: []int{0}},
 	"mix": {name: "mix", minOps: 2, maxOps: 8, wRecv: 60, wMsg: 20, wDeposit: 10, wQuery: 10, pOrbiter: 85, pFee: 50, pBadPayload: 15,
 		pFault: 10, pLie: 3, pWrongSign: 20, pPass: 20, pHuge: 10, pBadDenom: 10, routes: []string{"cctp", "hyp", "internal"}, msgKinds: allMsgKinds},
 }
@@ -341,7 +377,7 @@ func (g *gen) spoil(f *fwdSpec) string {
 		f.kind, f.pid, f.to = "internal", 4, strings.ToUpper(g.a.users[0].Bech)
 		return "internal-upper-recipient"
 	default:
-		f.pass = r.Bytes(rng.Pick(r, []int{1, 100, 70000}))
+		f.pass = r.Bytes(rng.Pick(r, []int{1, 100, 1200}))
 		return "passthrough"
 	}
 }
@@ -363,6 +399,9 @@ type pktInfo struct {
 	amount  *big.Int
 	denom   string // native denom expected to be credited ("" when not a returning native token)
 	dstChan string
+	// expectOK: by the harness's reading of the properties this transfer has nothing wrong with it, so
+	// it must succeed unless its destination / action is paused or its passthrough is over the limit
+	expectOK bool
 }
 
 func (g *gen) genPacket() (world.Packet, pktInfo) {
@@ -440,6 +479,22 @@ func (g *gen) genPacket() (world.Packet, pktInfo) {
 			}
 		}
 		info.spec = spec
+		base := strings.TrimSuffix(info.shape, "/upper-receiver")
+		if base == "valid" && info.amount.Sign() > 0 && info.amount.Cmp(big.NewInt(1_000_000_000_000)) <= 0 {
+			ok := true
+			for _, fl := range spec.fees {
+				if feeExpect(info.amount, fl).refused {
+					ok = false
+				}
+			}
+			switch spec.fwd.kind {
+			case "cctp": // the token factory burns only its minting denomination; remote token messengers exist for these domains
+				ok = ok && native == sim.USDC && spec.fwd.domain != 4 && spec.fwd.domain != 9
+			case "hyp": // an enrolled router exists for domain 1 only; a custom hook id must name an existing hook
+				ok = ok && spec.fwd.domain == 1 && string(spec.fwd.token) == g.w.S.HypTokens[native] && len(spec.fwd.hook) == 0
+			}
+			info.expectOK = ok
+		}
 	} else {
 		ics.Receiver = rng.Pick(r, []string{g.a.users[0].Bech, g.a.users[1].Bech, strings.ToUpper(g.a.users[2].Bech), sim.DustAddr().String(),
 			"noble1invalid", "", world.ModAddr("cctp").String()})
